@@ -157,7 +157,10 @@ IsVecCase(c) ==
 
 ----------------------------------------------------------------------------
 \* direct evaluation of the classifier predicates on names derived from the current lists and near misses
+NulAt(w, i) == SubSeq(w, 1, i) \o <<0>> \o SubSeq(w, i + 1, Len(w))        \* a NUL after the first i bytes
+NulEverywhere(w) == {NulAt(w, i) : i \in 0..Len(w)}
 NearNames(nm) ==
+  NulEverywhere(nm) \cup NulEverywhere(LowAscii(ON \o nm)) \cup
   {nm, LowAscii(nm), Alt(nm), nm \o <<88>>, <<0>> \o nm, nm \o <<0>>, <<88>> \o nm, ON \o nm, LowAscii(ON \o nm)}
   \cup (IF Len(nm) >= 2
         THEN {SubSeq(nm, 1, Len(nm) - 1), SubSeq(nm, 1, 1) \o <<0>> \o SubSeq(nm, 2, Len(nm)),
